@@ -542,6 +542,11 @@ def extra_cases(rng, tier):
             ops += [f"raw {b.hex()}", "recv", "recv"]
         c4.append(ops)
     yield "C04", c4
+    # Noise frames: maximum-size frames whose length prefix sits at the very end of the reader's read-ahead window, and
+    # tampered frames (the frame-length decoder of the Noise transport, C02's area)
+    from . import c02
+    n2 = {"quick": 14, "thorough": 400, "search": 40}[tier]
+    yield "C02", [c02.gen_window_edge(rng) for _ in range(n2)] + [c02.gen_case(rng, "tamper") for _ in range(n2)]
     # bitswap prefixes: random noise and mutated valid prefixes
     c20 = []
     for _ in range(max(4, n // 8)):
